@@ -224,6 +224,12 @@ theorem sorted_listing_unique (l₁ l₂ s₁ s₂ : List Utxo) (hp : l₁.Perm 
   obtain ⟨_, ht, hv⟩ := keyLe_antisymm_key a b hab hba
   exact hd a (p1.mem_iff.1 ha) b (hp.mem_iff.2 (p2.mem_iff.1 hb)) ht hv
 
+/-- the ordering never consults the `confirmed` flag: flipping it on either side changes no comparison.  Hence several
+    unconfirmed outputs (block time 0) are ordered among themselves by txid, vout like any others, and
+    `sorted_listing_unique` covers sets with any mixture of confirmed and unconfirmed outputs. -/
+theorem keyLe_ignores_confirmed (a b : Utxo) (ca cb : Bool) :
+    keyLe { a with confirmed := ca } { b with confirmed := cb } = keyLe a b := rfl
+
 /-- the model's sort is such an ordering of the listing -/
 theorem sortUtxos_P16sort (l : List Utxo) : P16sort l (sortUtxos l) :=
   ⟨List.mergeSort_perm l _, List.pairwise_mergeSort (fun a b c => keyLe_trans a b c) keyLe_total l⟩
@@ -236,10 +242,25 @@ theorem rawTx_listing_independent (i : Inp) (l₁ l₂ : List Utxo) (hp : l₁.P
 /-- the comparator as found (block time, txid) does not determine the order: two different lists of the same two outputs
     of one transaction are both consistent with it -/
 theorem as_found_order_ambiguous :
-    let a : Utxo := ⟨[97], 0, 10, 1000⟩
-    let b : Utxo := ⟨[97], 1, 20, 1000⟩
+    let a : Utxo := ⟨[97], 0, 10, 1000, true⟩
+    let b : Utxo := ⟨[97], 1, 20, 1000, true⟩
     [a, b].Pairwise (fun x y => keyLeAsFound x y = true) ∧ [b, a].Pairwise (fun x y => keyLeAsFound x y = true) ∧ [a, b] ≠ [b, a] := by
   decide
+
+/-- three unconfirmed outputs (no block time) mixed with a confirmed one, listed in two different orders: one ordered list -/
+example :
+    let u1 : Utxo := ⟨[98], 2, 5, 0, false⟩
+    let u2 : Utxo := ⟨[97], 1, 6, 0, false⟩
+    let u3 : Utxo := ⟨[97], 0, 7, 0, false⟩
+    let c  : Utxo := ⟨[96], 0, 8, 1000, true⟩
+    OutpointsDistinct [u1, c, u2, u3] ∧ sortUtxos [u1, c, u2, u3] = [u3, u2, u1, c] ∧ sortUtxos [c, u3, u1, u2] = [u3, u2, u1, c] := by
+  intro u1 u2 u3 c
+  have hd1 : OutpointsDistinct [u1, c, u2, u3] := by decide
+  have hd2 : OutpointsDistinct [c, u3, u1, u2] := by decide
+  have hs1 : P16sort [u1, c, u2, u3] [u3, u2, u1, c] := by decide
+  have hs2 : P16sort [c, u3, u1, u2] [u3, u2, u1, c] := by decide
+  exact ⟨hd1, sorted_listing_unique _ _ _ _ (List.Perm.refl _) hd1 (sortUtxos_P16sort _) hs1,
+    sorted_listing_unique _ _ _ _ (List.Perm.refl _) hd2 (sortUtxos_P16sort _) hs2⟩
 
 /-- the message handler's division undoes the source's ×10^10 exactly (no wrap below 2^64·10^10) -/
 theorem msgAmount_exact (amountBytes : Bytes) (d : Nat) (h : beToNat amountBytes = d * 10 ^ 10) (hd : d < M) :
@@ -254,7 +275,7 @@ theorem wrap_point_amount : toInt64 (2 ^ 63) = -(2 ^ 63 : Int) := by decide
 
 /-- with a UTXO value near 2^64 the running input total wraps: the model then builds a transaction violating P16 -/
 theorem wrap_point_utxo :
-    let i : Inp := ⟨some 5, some 5, some [], [0x51], [⟨10000, some [0]⟩], some [⟨[97], 0, 2 ^ 64 - 1, 1000⟩]⟩
+    let i : Inp := ⟨some 5, some 5, some [], [0x51], [⟨10000, some [0]⟩], some [⟨[97], 0, 2 ^ 64 - 1, 1000, true⟩]⟩
     ¬ P16 i (rawTx i) := by
   decide
 
@@ -263,14 +284,14 @@ theorem wrap_point_utxo :
 /-- one 10 000-sat proposal, fee rate 1 (quote 1 240 for 1 input / 2 outputs… here (1·180+2·34)·5 = 1 240):
     UTXO total 11 241 → change 1; 11 240 → no change; 11 239 → no transaction (as found: change −1) -/
 example :
-    let i (v : Nat) : Inp := ⟨some 1, some 1, some [], [0x51], [⟨10000, some [0]⟩], some [⟨[97], 0, v, 1000⟩]⟩
+    let i (v : Nat) : Inp := ⟨some 1, some 1, some [], [0x51], [⟨10000, some [0]⟩], some [⟨[97], 0, v, 1000, true⟩]⟩
     WF (i 11241) ∧
     (rawTx (i 11241)).map (·.outs.map (·.value)) = some [10000, 0, 1] ∧
     (rawTx (i 11240)).map (·.outs.map (·.value)) = some [10000, 0] ∧
     rawTx (i 11239) = none ∧ rawTx (i 10000) = none := by
   refine ⟨by decide, by decide, by decide, by decide, by decide⟩
 
-example : rawTx ⟨some 1, some 1, some [], [0x51], [⟨10000, none⟩], some [⟨[97], 0, 50000, 1000⟩]⟩ = none := by decide
+example : rawTx ⟨some 1, some 1, some [], [0x51], [⟨10000, none⟩], some [⟨[97], 0, 50000, 1000, true⟩]⟩ = none := by decide
 
 end Property
 end Sygma.C16
